@@ -56,7 +56,11 @@ fn find_pyxis_files(dir: &Path) -> anyhow::Result<Vec<std::path::PathBuf>> {
 
         ancestors.push(canonical_dir);
         for path in entries {
-            if path.extension().is_some_and(|e| e == "pyxis") {
+            // (`Path::extension` knows no extension for a file called just `.pyxis`)
+            if path
+                .file_name()
+                .is_some_and(|name| name.as_encoded_bytes().ends_with(b".pyxis"))
+            {
                 found.push(path.clone());
             }
             let is_dir = match std::fs::metadata(&path) {
